@@ -56,7 +56,8 @@ static void property(Src& s, Case& c) {
   go.max_nodes = std::min(kNodes[s.index(4)], 4 + c.size);
   go.max_depth = 6;
   go.prefer_container_root = true;
-  static const std::vector<std::string> pool = {"a", "b", "key", "", "a\"b", "k\\", "id", "kkkkkkkkkkkkkkkkkkkkkkkkkkkkkkkkkkkkkkkk"};
+  static const std::vector<std::string> pool = {"a", "b", "key", "", "a\"b", "k\\", "id", "kkkkkkkkkkkkkkkkkkkkkkkkkkkkkkkkkkkkkkkk",
+                                                std::string("a\0b", 3), std::string("a\0c", 3), std::string("\0", 1), "caf\xc3\xa9", "caf\xc3\xaa"};
   go.key_pool = &pool;
   Layout lay;
   lay.ws = (int)s.weighted({3, 4, 3});
